@@ -169,7 +169,8 @@ def cls (s : CS) : Nat :=
     match s.ro.phase, s.ro.reason with
     | .healthy, _ =>
       if w.inProgressAnno then
-        (if w.updateRevision == w.currentRevision then 0 else if w.generation = w.observedGeneration then 2 else 1)
+        (if w.updateRevision == w.currentRevision then 0 else if w.generation = w.observedGeneration then 2
+         else if w.updated < w.replicas then 1 else 0)
       else if s.br.isNone && (match s.ro.sub with | some sub => sub.state != .paused | none => false) &&
               csObserve s.ro (roWl w) == s.ro then 40 else 0
     | .progressing, .initializing => if s.ro.condAge = .fresh || w.updateRevision == w.currentRevision then 0 else 4
